@@ -116,7 +116,7 @@ def solve(assumptions, goal, timeout_ms=None, use_cvc5=True, nl=False):
             pur, _ = purify(list(assumptions) + [goal])
             t = z3.Tactic("qfnra-nlsat")
             sp = t.solver()
-            sp.set("timeout", timeout_ms)
+            sp.set("timeout", min(timeout_ms, 8000))
             for a in pur[:-1]:
                 sp.add(a)
             sp.add(z3.Not(pur[-1]))
